@@ -28,6 +28,7 @@ class Feed:
         self.error = None  # (first failing call index, exception)
         self.errors = 0
         self.probes = {}
+        self.changed_later = None  # (call index, was, is): a list returned by read() did not stay what it was
 
 
 class ProcessClock:
@@ -119,14 +120,20 @@ class _Clocked:
 def _feed(reader, wire: bytes, cutspec: dict, probe=None, bystander=None, keep_going: bool = False) -> Feed:
     out = Feed()
     as_bytearray = cutspec.get("as") == "bytearray"
+    rx = bytearray() if cutspec.get("as") == "reused_bytearray" else None
     by = Bystander(bystander[0], bystander[1]) if bystander else None
+    held = []  # the caller keeps what read() returned: (call index, the list object, what it contained when returned)
     for idx, chunk in enumerate(fragment.chunks(wire, cutspec)):
         if by is not None:
             by.step(idx)
+        arg = chunk
         if as_bytearray:
-            chunk = bytearray(chunk)  # transports may hand over a bytearray; the reader must not depend on the type
+            arg = bytearray(chunk)  # transports may hand over a bytearray; the reader must not depend on the type
+        elif rx is not None:
+            rx[:] = chunk  # one receive buffer, refilled for every call (recv_into style): the reader must not keep it
+            arg = rx
         try:
-            msgs = reader.read(chunk)
+            msgs = reader.read(arg)
         except Exception as ex:  # noqa: BLE001 - reported by C14; other checks count the run as void
             if out.error is None:
                 out.error = (idx, ex)
@@ -136,10 +143,18 @@ def _feed(reader, wire: bytes, cutspec: dict, probe=None, bystander=None, keep_g
             break
         out.calls.append((len(chunk), msgs))
         out.messages.extend(msgs)
+        if isinstance(msgs, list) and len(held) < 4000:
+            held.append((idx, msgs, list(msgs)))
         if probe is not None:
             probe(reader, chunk, out.probes)
+    for idx, obj, was in held:
+        if len(obj) != len(was) or any(a is not b for a, b in zip(obj, was)):
+            out.changed_later = (idx, len(was), len(obj))
+            break
     if cutspec.get("gaps"):
         out.probes["stalled_delivery"] = 1
+    if rx is not None:
+        out.probes["reused_receive_buffer"] = 1
     return out
 
 
